@@ -16,10 +16,10 @@ import (
 // C09Cli is one client of a negotiation run.
 type C09Cli struct {
 	L       int    `json:"l"`
-	Sel     string `json:"sel"`      // encryption selector of a real client: "", none, tls
-	Raw     bool   `json:"raw"`      // scripted cooperative raw client instead of a real ClientChannel
-	Choice  int    `json:"choice"`   // raw client: which offered options it picks
-	Bad     int    `json:"bad"`      // raw client: 0 picks from the offer, 1 not offered, 2 empty, 3 unknown
+	Sel     string `json:"sel"`    // encryption selector of a real client: "", none, tls
+	Raw     bool   `json:"raw"`    // scripted cooperative raw client instead of a real ClientChannel
+	Choice  int    `json:"choice"` // raw client: which offered options it picks
+	Bad     int    `json:"bad"`    // raw client: 0 picks from the offer, 1 not offered, 2 empty, 3 unknown
 	StartMs int    `json:"start_ms"`
 }
 
